@@ -80,6 +80,11 @@ type Sim struct {
 	OnAbort  func()
 	stopping atomic.Bool
 	sched    *Hasher
+	running  atomic.Bool
+	// OnQuiescent hooks run on the simulator goroutine whenever every goroutine of the bubble is
+	// durably blocked (before the next event is taken) and once more when the loop ends; a hook
+	// returns true when it released somebody (the loop then waits for quiescence again).
+	OnQuiescent []func() bool
 }
 
 // New creates a simulator. Must be called inside the bubble.
@@ -135,6 +140,17 @@ func (s *Sim) Occ(key string) int {
 	return n
 }
 
+// Running reports whether the simulator loop is processing events.
+func (s *Sim) Running() bool { return s.running.Load() }
+
+// Wake makes the simulator loop look at its hooks and inbox again.
+func (s *Sim) Wake() {
+	select {
+	case s.wake <- struct{}{}:
+	default:
+	}
+}
+
 // Submit schedules fn to run on the simulator goroutine after delay d.
 // It may be called from any goroutine of the bubble.
 func (s *Sim) Submit(name string, d time.Duration, tie uint64, fn func()) {
@@ -166,6 +182,13 @@ func (s *Sim) drain() {
 // It returns the abort reason ("" if main ended normally).
 func (s *Sim) Run(main func()) string {
 	done := make(chan struct{})
+	s.running.Store(true)
+	defer func() {
+		s.running.Store(false)
+		for _, h := range s.OnQuiescent {
+			h()
+		}
+	}()
 	go func() {
 		defer close(done)
 		main()
@@ -177,6 +200,15 @@ func (s *Sim) Run(main func()) string {
 			// let remaining due events go: nobody waits for them.
 			return s.Aborted
 		default:
+		}
+		released := false
+		for _, h := range s.OnQuiescent {
+			if h() {
+				released = true
+			}
+		}
+		if released {
+			continue
 		}
 		s.drain()
 		if s.Aborted == "" {
